@@ -2,7 +2,11 @@
 package checks
 
 import (
+	"context"
 	"fmt"
+	"time"
+
+	"github.com/samber/lo"
 	"sort"
 	"strings"
 
@@ -80,3 +84,11 @@ func ints(vs ...int) []h.Ev {
 
 func wordC(vs ...int) []h.Ev { return append(ints(vs...), h.Co()) }
 func wordE(vs ...int) []h.Ev { return append(ints(vs...), h.Er(h.ErrSrc)) }
+
+type ctxT = context.Context
+
+func tapAdd(r *h.Rec, e h.Ev) { r.Add(e) }
+
+type tup2T = lo.Tuple2[int, int]
+type tup2T64 = lo.Tuple2[int, int64]
+type timeDur = time.Duration
